@@ -253,6 +253,20 @@ func init() {
 			sharedWant := map[string]string{"who": "all", "bucketid": "0001", "bucket": renderValueBound(1, prec) + "-" + renderValueBound(2, prec)}
 			sharedDBucket := rep.AllocateHistogram("shared.dhist", sharedTags, tally.DurationBuckets{time.Second, 2 * time.Second}).DurationBucket(time.Second, 2*time.Second)
 			sharedDWant := map[string]string{"who": "all", "bucketid": "0001", "bucket": "1s-2s"}
+			// plain handles shared by all goroutines: every goroutine's value must arrive once, with that value
+			sharedCounter := rep.AllocateCounter("shared.counter", sharedTags)
+			sharedGauge := rep.AllocateGauge("shared.gauge", sharedTags)
+			sharedTimer := rep.AllocateTimer("shared.timer", sharedTags)
+			// tag sets larger than the reporter's pooled tag slices (10)
+			for _, nt := range []int{10, 11, 12, 25} {
+				big := map[string]string{}
+				for i := 0; i < nt; i++ {
+					big[fmt.Sprintf("k%02d", i)] = fmt.Sprintf("v%d", i*i)
+				}
+				bn := fmt.Sprintf("bigtags.%d", nt)
+				report("main", "counter", rep.AllocateCounter(bn, big), bn, big, int64(7000+nt), 0)
+				report("main", "gauge", rep.AllocateGauge(bn+".g", big), bn+".g", big, 0, float64(nt)+0.5)
+			}
 			var bucketSeqs []M
 			var bsmu sync.Mutex
 			startAll := make(chan struct{})
@@ -268,6 +282,11 @@ func init() {
 					for i := 0; i < 150; i++ {
 						report(t, "bucket", sharedBucket, "shared.hist", sharedWant, int64(1000000*(g+1)+i), 0)
 						report(t, "bucket", sharedDBucket, "shared.dhist", sharedDWant, int64(1000000*(g+1)+i), 0)
+						if i%10 == 0 {
+							report(t, "counter", sharedCounter, "shared.counter", sharedTags, int64(1000000*(g+1)+i), 0)
+							report(t, "gauge", sharedGauge, "shared.gauge", sharedTags, 0, float64(1000000*(g+1)+i))
+							report(t, "timer", sharedTimer, "shared.timer", sharedTags, int64(1000000*(g+1)+i), 0)
+						}
 					}
 					for left > 0 {
 						name := c13Names[grng.Intn(len(c13Names))] + fmt.Sprintf(".%d", g) // a name belongs to one goroutine
@@ -364,6 +383,27 @@ func init() {
 					}
 				}()
 			}
+			// hammer: in two histories several goroutines push many distinct values through ONE plain counter handle; the
+			// values are not logged one by one - what arrives is counted per value (a value that arrives twice was
+			// delivered twice: loss on the way could only make one go missing)
+			hammerSent := 0
+			if ci == 1 || ci == 2 {
+				hh := rep.AllocateCounter("hammer.counter", sharedTags)
+				const HG, HN = 4, 30000
+				var hw sync.WaitGroup
+				for g := 0; g < HG; g++ {
+					g := g
+					hw.Add(1)
+					go func() {
+						defer hw.Done()
+						for i := 0; i < HN; i++ {
+							hh.ReportCount(int64(g)*10000000 + int64(i) + 1)
+						}
+					}()
+				}
+				hw.Wait()
+				hammerSent = HG * HN
+			}
 			close(startAll)
 			closeIt := func() {
 				log(M{"e": "call", "t": "main", "op": "close"})
@@ -409,6 +449,17 @@ func init() {
 			waitDatagrams(cols[dead:], int(emitted.Load()), time.Second)
 			logEmits(cols, compact, maxPacket, common, constructedLo, callHi, cids, &mu, log)
 			tally.VerifSetHook(nil, nil)
+			if hammerSent > 0 {
+				dup, got := 0, 0
+				for _, n := range c13HammerSeen {
+					got += n
+					if n > 1 {
+						dup += n - 1
+					}
+				}
+				log(M{"e": "hammer", "sent": hammerSent, "received": got, "dup": dup})
+			}
+			c13HammerSeen = map[[2]int64]int{}
 			log(M{"e": "end", "pending": int(m3.VerifStateOf(rep).Pending), "qlen": 0, "done": true})
 			for _, c := range cols {
 				c.close()
@@ -538,6 +589,9 @@ func renderDurationBound(d time.Duration) string {
 	return d.String()
 }
 
+// values of the hammer counter seen in decoded datagrams (per history)
+var c13HammerSeen = map[[2]int64]int{} // (destination, value) -> times seen
+
 func logEmits(cols []*sinkCollector, compact bool, maxPacket int, commonWant map[string]string, constructedLo int64, callHi map[string]int64, cids map[string]int, mu *sync.Mutex, log func(M)) {
 	for si, c := range cols {
 		for _, d := range c.take() {
@@ -568,6 +622,10 @@ func logEmits(cols []*sinkCollector, compact bool, maxPacket int, commonWant map
 				mets := []M{}
 				for _, m := range b.Metrics {
 					if strings.HasPrefix(m.Name, "tally.internal") {
+						continue
+					}
+					if m.Name == "hammer.counter" {
+						c13HammerSeen[[2]int64{int64(si), m.Value.Count}]++
 						continue
 					}
 					k, v := metricKindValue(m)
